@@ -443,6 +443,180 @@ def plan_faults(ctx, case, base, exhaustive, sample_n):
     return jobs
 
 
+# ------------------------------------------------------------------------------------------------ layer 2: block processor API
+BP_FIXED_SESSIONS = [
+    # (file list) each file: (with inode, dont_fragment, units, class)   class: z zero | u unique | s shared
+    [(1, 0, 10, "u"), (1, 0, 3, "z"), (1, 0, 10, "u")],
+    [(1, 0, 3, "s"), (1, 0, 3, "s"), (1, 0, 2, "u"), (1, 0, 2, "u"), (1, 0, 1, "u")],       # duplicate fragment, fragment block overflow
+    [(1, 0, 9, "z"), (1, 1, 6, "u"), (1, 0, 4, "u"), (1, 0, 0, "u")],                       # sparse blocks + tail, dont_fragment, exact block, empty
+    [(1, 0, 9, "s"), (1, 0, 9, "s"), (0, 0, 5, "u")],                                        # duplicate blocks (block writer dedup), no inode
+    [(1, 0, 1, "z"), (1, 0, 21, "u"), (1, 0, 2, "z")],                                       # inode growth at index 0 and 4
+]
+
+
+def bp_tokens(files, sync_after=()):
+    real, model, seen = [], [], set()
+    for idx, (i, d, n, c) in enumerate(files):
+        real.append("B%d%d" % (i, d))
+        model.append("B%d%d" % (i, d))
+        if n > 0:
+            tail = n % 4
+            dup = c == "s" and tail != 0 and not d and (n, "s") in seen
+            if c == "s":
+                seen.add((n, "s"))
+            real.append("A%d:%s" % (n, c))
+            model.append("A%d:%d%d" % (n, 1 if c == "z" else 0, 1 if dup else 0))
+        real.append("E")
+        model.append("E")
+        if idx in sync_after:
+            real.append("S")
+            model.append("S")
+    real.append("F")
+    model.append("F")
+    return real, model
+
+
+def bp_kind(fns):
+    """primitive kind(s) of Sqfs.FailStop.BP.Prim for a fault whose innermost project frames are fns"""
+    if not fns:
+        return None
+    if "set_block_size" in fns:
+        return ["growSparseTail"] if "process_completed_fragment" in fns else ["growSparseBlock", "growDataBlock"]
+    if "load_frag_block" in fns or "chunk_info_equals" in fns:
+        return ["htInsert"] if any(f.startswith("hash_table_insert") for f in fns) else ["fragLookup"]
+    if any(f.startswith("hash_table_insert") or f == "hash_table_rehash" for f in fns):
+        return ["htInsert"]
+    if "write_data_block" in fns or "deduplicate_blocks" in fns:
+        return ["writeBlock"]
+    if "sqfs_frag_table_set" in fns:
+        return ["fragTableSet"]
+    if "sqfs_frag_table_append" in fns:
+        return ["fragTableAppend"]
+    if fns[0] == "sqfs_block_processor_begin_file":
+        return ["inodeAlloc"]
+    if fns[0] == "get_new_block":
+        return ["allocBlock"]
+    if "submit" in fns[:2]:
+        return ["submit"]
+    if fns[0] == "alloc_flex" and len(fns) > 1 and fns[1] == "enqueue_block":
+        return ["allocFragCopy"]
+    if fns[0] == "process_completed_fragment":
+        return ["allocChunk"]
+    return None
+
+
+def bp_phase(ctx, report, stats, nworkers, env):
+    shim = ctx.scratch / "shim_fault.o"
+    lib = ctx.build_lib("fault", ALLOC_DEFS)
+    ld = ["-no-pie", "-Wl," + ",".join("--wrap=" + x for x in WRAP_SYMS)]
+    exe = ctx.cc("h_c13_bp", ["h_c13_bp.c"], flags=["-fno-pie"], libs=[str(shim), str(lib)] + vlib.CODEC_LIBS + ld)
+    sessions = list(BP_FIXED_SESSIONS)
+    nrand = 3 if ctx.quick() else 12
+    for _ in range(nrand):
+        k = ctx.rng.randint(2, 6)
+        sessions.append([(1 if ctx.rng.random() < 0.9 else 0, 1 if ctx.rng.random() < 0.2 else 0, ctx.rng.choice([0, 1, 2, 3, 4, 5, 7, 8, 9, 13, 17]),
+                          ctx.rng.choice("uuzs")) for _ in range(k)])
+    bstat = stats.setdefault("blockproc", {"sessions": len(sessions), "runs": 0, "fired_in_call": 0, "kinds": {}, "unreported": 0, "model_compared": 0})
+    work = ctx.scratch / "bp"
+    work.mkdir()
+
+    def run_bp(tag, line, fault=None):
+        e = dict(env)
+        rep = work / ("rep_%s" % tag)
+        out = work / ("out_%s" % tag)
+        e.update({"VF_REPORT": str(rep), "VF_OUT": str(out)})
+        if fault:
+            e.update({"VF_CLASS": fault["cls"], "VF_K": str(fault["k"]), "VF_SIDE": "any", "VF_KIND": "EIO"})
+        try:
+            p = subprocess.run([str(exe), str(out)], input=(line + "\n").encode(), stdout=subprocess.PIPE, stderr=subprocess.PIPE, env=e, timeout=TIMEOUT_ISOLATED)
+            rc, so, se = p.returncode, p.stdout.decode(), p.stderr.decode("utf-8", "replace")
+        except subprocess.TimeoutExpired:
+            rc, so, se = 124, "", "timeout"
+        counts, bt, fired = {}, [], False
+        if rep.exists():
+            for l in rep.read_text().splitlines():
+                w = l.split()
+                if w[0] == "count":
+                    counts[w[1]] = counts.get(w[1], 0) + int(w[3])
+                elif w[0] == "fired":
+                    fired = w[1] == "1"
+                elif w[0] == "bt":
+                    bt = w[1:]
+            rep.unlink()
+        if out.exists():
+            out.unlink()
+        return rc, so.strip(), se, counts, bt, fired
+    for si, files in enumerate(sessions):
+        sync_after = {1} if si % 2 else set()
+        real, model = bp_tokens(files, sync_after)
+        line = " ".join(real)
+        rc, so, se, counts, _, _ = run_bp("base%d" % si, line)
+        mfree = ctx.driver(["c13"], "bpfree fix %s\n" % ",".join(model))[0]
+        want = " ".join(x.split("/")[0] for x in mfree.split())
+        base_digest = so.split("digest=")[1] if "digest=" in so else "?"
+        if rc != 0 or so.split("fired=")[0].split() != want.split():
+            report("corr:bp:faultfree:%d" % si, "block processor session %s: real %r (rc %d) vs model %r" % (line, so, rc, mfree),
+                   {"session": line, "model": ",".join(model), "stderr": se[-300:]}, found_input=False)
+            continue
+        jobs = [{"cls": c, "k": k} for c in ALLOC_CLASSES + ["write", "read", "trunc"] for k in range(1, counts.get(c, 0) + 1)]
+
+        def one(i, line=line, si=si, jobs=jobs):
+            return jobs[i], run_bp("%d_%d" % (si, i), line, jobs[i])
+        with concurrent.futures.ThreadPoolExecutor(nworkers) as ex:
+            results = list(ex.map(one, range(len(jobs))))
+        queries, pend = [], []
+        for f, (rc, so, se, _, bt, fired) in results:
+            bstat["runs"] += 1
+            replay = {"bp_session": line, "model_session": ",".join(model), "fault": f, "rc": rc, "stdout": so, "stderr": se[-400:]}
+            if rc != 0 or "fired=" not in so:
+                report("blockproc:%s:crash" % cls_group(f["cls"]), "block processor harness died (rc %d) on %s with fault %s: %s" % (rc, line, f, se[-300:]), replay)
+                continue
+            rcs = so.split("fired=")[0].split()
+            j = int(so.split("fired=")[1].split()[0])
+            digest = so.split("digest=")[1] if "digest=" in so else "?"
+            if not fired or j < 0:
+                continue                      # fired outside the armed region (set-up / tear-down)
+            bstat["fired_in_call"] += 1
+            pf = [fn for fn, _ in project_frames(resolve_bt(exe, bt))]
+            kinds = bp_kind(pf)
+            kname = "|".join(kinds) if kinds else "?"
+            bstat["kinds"][kname] = bstat["kinds"].get(kname, 0) + 1
+            replay["backtrace"] = pf[:8]
+            # the theorem's statement, evaluated on the implementation: the call in progress returns an error
+            reported = len(rcs) > j and rcs[j] == "err"
+            if not reported and "err" not in rcs and digest == base_digest:
+                # tolerated: no call failed and the result (file bytes and inodes) is the fault-free one
+                # (e.g. hash_table_rehash failing: the insert still succeeds while the table has room)
+                bstat["tolerated"] = bstat.get("tolerated", 0) + 1
+                continue
+            if not reported:
+                bstat["unreported"] += 1
+                report("blockproc:%s:unreported@%s" % (cls_group(f["cls"]), kname),
+                       "sqfs_block_processor call #%d returns 0 although a %s primitive (%s) failed while it ran [%s]" % (j, f["cls"], kname, " <- ".join(pf[:4])), replay)
+            if kinds:
+                queries.append("bp fix %d %s %s" % (j, kname, ",".join(model)))
+                queries.append("bp cur %d %s %s" % (j, kname, ",".join(model)))
+                pend.append((f, rcs, j, kname, reported, replay))
+            else:
+                report("corr:bp:kind:%s" % (pf[0] if pf else "?"), "fault site %s of the block processor has no primitive kind in the model" % pf[:4], replay, found_input=False)
+        if queries:
+            outl = ctx.driver(["c13"], "\n".join(queries) + "\n")
+            for n, (f, rcs, j, kname, reported, replay) in enumerate(pend):
+                bstat["model_compared"] += 1
+                mfix, mcur = outl[2 * n], outl[2 * n + 1]
+
+                def vec(m):
+                    return m.split(" faulted=")[0].split() if " faulted=" in m else None
+                if vec(mfix) == rcs[:j + 1]:
+                    continue
+                if vec(mcur) == rcs[:j + 1]:
+                    if reported:
+                        report("corr:bp:cur:%s" % kname, "real run matches the pinned model only, but the call reported the error", replay, found_input=False)
+                    continue
+                report("corr:bp:%s" % kname, "block processor: real results %s (fault in call %d, %s) vs model(fixed) %r, model(pinned) %r" % (rcs, j, kname, mfix, mcur),
+                       dict(replay, model_fixed=mfix, model_pinned=mcur), found_input=False)
+
+
 class Dedup:
     """one VIOLATION / KNOWN-FINDING per key and run; further hits of the same key are counted"""
 
@@ -605,6 +779,7 @@ def run(ctx):
                         "failure-output-left": "fails but leaves its partial output file behind", "failure-no-diagnostic": "fails without any diagnostic on stderr"}[v]
                 report(key, "%s %s when the %s call #%d (%s) fails in %s [%s]" % (case.tool, what, f["cls"], f["k"], f.get("kind", "NULL"), stepfn,
                                                                                     " <- ".join(x.split("@")[0] for x in replay["backtrace"][:4])), replay)
+    bp_phase(ctx, report, stats, nworkers, env)
     # the Lean specification evaluated on every observation must agree with the Python mirror used above
     if monitor_lines:
         uniq = sorted(set(zip(monitor_lines, monitor_expect)))
@@ -613,7 +788,7 @@ def run(ctx):
             if g != e:
                 report("infra:monitor", "Spec.verdict (Lean) = %s but the runner computed %s on %s" % (g, e, l), {"line": l}, found_input=False)
     ctx.cov.update({
-        "evaluations": stats["runs"],
+        "evaluations": stats["runs"] + stats.get("blockproc", {}).get("runs", 0),
         "distinct_nontrivial": len(distinct),
         "rule": "every single fault position of every class (write/read/trunc/open/lseek/fsync/close × in/out × EIO/EINTR-then-error(/ENOSPC for writes); "
                 "malloc/calloc/realloc/strdup by project code) found by a counting run, for gensquashfs (-F and -D), tar2sqfs, sqfs2tar (plain and gzip), "
@@ -644,6 +819,32 @@ def replay(ctx, path):
     if "fault" not in rp:
         print("replay file names a broken obligation, no input to replay:", json.dumps(rp)[:500])
         return 1
+    if "bp_session" in rp:
+        build_tools(ctx)
+        env = ctx.san_env()
+        lib = ctx.build_lib("fault", ALLOC_DEFS)
+        ld = ["-no-pie", "-Wl," + ",".join("--wrap=" + x for x in WRAP_SYMS)]
+        exe = ctx.cc("h_c13_bp", ["h_c13_bp.c"], flags=["-fno-pie"], libs=[str(ctx.scratch / "shim_fault.o"), str(lib)] + vlib.CODEC_LIBS + ld)
+        out = ctx.scratch / "bp_out"
+        res = []
+        for fault in (None, rp["fault"]):
+            e = dict(env)
+            e.update({"VF_OUT": str(out), "VF_REPORT": str(ctx.scratch / "bp_rep")})
+            if fault:
+                e.update({"VF_CLASS": fault["cls"], "VF_K": str(fault["k"]), "VF_SIDE": "any", "VF_KIND": "EIO"})
+            p = subprocess.run([str(exe), str(out)], input=(rp["bp_session"] + "\n").encode(), stdout=subprocess.PIPE, stderr=subprocess.PIPE, env=e, timeout=TIMEOUT_ISOLATED)
+            res.append((p.returncode, p.stdout.decode().strip()))
+        print("session   :", rp["bp_session"])
+        print("fault-free:", res[0])
+        print("fault %s:" % rp["fault"], res[1])
+        so = res[1][1]
+        if res[1][0] != 0 or "fired=" not in so:
+            return 1
+        rcs = so.split("fired=")[0].split()
+        j = int(so.split("fired=")[1].split()[0])
+        bad = j >= 0 and "err" not in rcs and so.split("digest=")[1] != res[0][1].split("digest=")[1]
+        print("verdict   :", "unreported failure, result differs" if bad else "ok")
+        return 1 if bad else 0
     tools = build_tools(ctx)
     env = ctx.san_env()
     cases = gen_cases(ctx, ctx.scratch / "in", random_for(rp.get("input_seed", 0)), tools, scale=rp.get("scale", 1))
